@@ -50,6 +50,8 @@ func (v sval) lit() string {
 		return "[1]"
 	case "map":
 		return `{"a": 1}`
+	case "void":
+		return "some.attr"
 	}
 	return "nil"
 }
@@ -149,8 +151,19 @@ func buildPoint(s sstate) *input.Point {
 	for k, v := range s.Fields {
 		fields[k] = v.goVal()
 	}
+	// a key the index knows as a tag although the point has no such tag (a tag that was given "no value"): built the way it arises
+	var dangling []string
+	for k, m := range s.Meta {
+		if _, has := s.Tags[k]; !has && m.Flag == "tag" {
+			tags[k] = "placeholder"
+			dangling = append(dangling, k)
+		}
+	}
 	pt := &input.Point{}
 	input.InitPt(pt, s.Meas, tags, fields, fixedTime)
+	for _, k := range dangling {
+		_ = pt.Set(k, nil, ast.Void)
+	}
 	return pt
 }
 
@@ -213,8 +226,10 @@ func diffPoint(pt *input.Point, d sstate, keys []string) map[string]any {
 		var want sval
 		if f, ok := d.Fields[k]; ok {
 			want = f
+		} else if tv, ok := d.Tags[k]; ok {
+			want = sval{K: "str", S: tv}
 		} else {
-			want = sval{K: "str", S: d.Tags[k]}
+			want = sval{K: "nil"} // known to the index as a tag, no such tag in the point: reads nil
 		}
 		if err != nil || !want.same(v) || (want.K != t.String()) {
 			bad["get:"+k] = map[string]any{"want": want, "got": fmt.Sprintf("%T(%v) %s err=%v", v, v, t, err)}
